@@ -136,6 +136,9 @@ func genSizes(t *rapid.T, n, lo, hi int, label string) []int {
 
 // genChains draws Q (minQ..maxQ primes) and P (minP..maxP primes), all distinct, NTT-friendly for 2N.
 // Sizes 20..61 bits in the quick tier; the thorough tier also draws tiny limbs (smallest admissible .. 19 bits).
+// wideChains is switched on by the generators whose operation reads all Q limbs as the source of a base conversion.
+var wideChains = false
+
 func genChains(t *rapid.T, minLogN, maxLogN, minQ, maxQ, minP, maxP int, allowCI bool) ChainSpec {
 	var s ChainSpec
 	s.LogN = rapid.IntRange(minLogN, maxLogN).Draw(t, "logN")
@@ -157,6 +160,19 @@ func genChains(t *rapid.T, minLogN, maxLogN, minQ, maxQ, minP, maxP int, allowCI
 	nQ := rapid.IntRange(minQ, maxQ).Draw(t, "nQ")
 	nP := rapid.IntRange(minP, maxP).Draw(t, "nP")
 	used := map[uint64]bool{}
+	if wideChains && h.Thorough() && s.LogN <= 5 && rapid.IntRange(0, 5).Draw(t, "wide") == 0 {
+		// 9..16 source primes of 60/61 bits: the 128-bit accumulator of multSum then carries up to 2q in its high word
+		nQ = rapid.IntRange(9, 16).Draw(t, "nQwide")
+		sz := make([]int, nQ)
+		for i := range sz {
+			sz[i] = 61 - rapid.IntRange(0, 3).Draw(t, fmt.Sprintf("qw%d", i))/3
+		}
+		s.Q = h.GenPrimes(t, sz, m, used, "q")
+		if nP > 0 {
+			s.P = h.GenPrimes(t, genSizes(t, nP, lo, hi, "p"), m, used, "p")
+		}
+		return s
+	}
 	s.Q = h.GenPrimes(t, genSizes(t, nQ, lo, hi, "q"), m, used, "q")
 	if nP > 0 {
 		s.P = h.GenPrimes(t, genSizes(t, nP, lo, hi, "p"), m, used, "p")
